@@ -9,6 +9,7 @@ C  request completion: every MPI_Isend / MPI_Irecv request is waited for on ever
 D  collective shape: in MPI_Gather / MPI_Allgather the per-rank receive count equals the send count
 """
 import os
+import re
 
 import ir
 import inline
@@ -432,6 +433,8 @@ def rule_C(ck, units):
                 waited = set()
                 for g in fin:
                     g = inline.expand(g, inline.same_class_helper())
+                    gloc = locate(g)
+                    wev = {}
                     for c in g.calls():
                         if c.get('f') in ('MPI_Waitall', 'MPI_Wait'):
                             names = []
@@ -446,7 +449,14 @@ def rule_C(ck, units):
                                     x = unwrap(x.get('b') or x.get('e'))
                                 else:
                                     break
-                            waited.add(('this', '.'.join(reversed(names))))
+                            root_w = ('this', '.'.join(reversed(names)))
+                            if c['i'] in gloc:
+                                wev.setdefault(gloc[c['i']][0], []).append(root_w)
+                    # waited for on EVERY path through finish_exchange (an early return before the waits leaves the sends pending)
+                    if g.cfg is not None:
+                        IN_g, OUT_g = g.cfg.forward(frozenset(), lambda b, st: frozenset(set(st) | set(wev.get(b, ()))), join=lambda a, b_: a & b_)
+                        ex = IN_g.get(g.cfg.exit)
+                        waited |= set(ex) if ex is not None else set()
                 left = sorted(str(p) for p in pending if p not in waited)
                 ck.ob('C.requests-completed', key, f.where(), not left, '' if not left else 'requests %s posted by start_exchange are not waited for in finish_exchange' % left)
             else:
@@ -1014,6 +1024,56 @@ def rule_J(ck, units, floor=10):
                       'runtime copies the data (eager vs rendezvous protocol)' % (show(n['a'][0]), f.where(n), show(w)[:50], f.where(w)))
 
 
+def rule_K(ck, T):
+    """K.memberwise-copy: a constructor that copies an object of the same class template with other template arguments (the copy of a
+    distributed matrix / communication pattern to another backend) takes every member from the member of the same name:
+    `m(C.m)` in the initialiser list, `x.m = C.x.m` in the body.  A crossed pair (`loc_beg(C.loc_cols)`) compiles whenever the types agree."""
+    ck.rule('K.memberwise-copy', 'converting copy constructors (same class template, other arguments): a member initialised / assigned from a member of the source is taken from the member '
+                                 'of the same name (same member path)', 4)
+    src = os.path.join(T, 'mpi_relax.cpp')
+    u = ir.run_units([dict(name='mpi_relax', src=src, mpi=True)], 'C11k')['mpi_relax']
+    seen = set()
+    for f in u.funcs:
+        if not f.j.get('ctor') or len(f.params) != 1 or f.body is None or not f.rel().startswith('amgcl/') or (f.file, f.line) in seen:
+            continue
+        pt = u.type(f.decl(f.params[0]).get('ct')).replace('const ', '').strip()
+        if re.sub(r'<.*', '', pt) != f.cls or pt.rstrip('& ') == (f.clsfull or ''):
+            continue           # not the same template, or the ordinary copy constructor
+        seen.add((f.file, f.line))
+        src_d = f.params[0]
+
+        def src_path(e):
+            """member path of an expression that reads a member of the source object, else None"""
+            e = unwrap(e)
+            while e is not None and e['k'] in ('ctor', 'cast') and (e['k'] == 'cast' or len(e.get('a', [])) == 1):
+                e = unwrap(e['e'] if e['k'] == 'cast' else e['a'][0])
+            ap = ir.access_path(e) if e is not None else None
+            if ap is not None and ap[0] == 'var' and ap[1] == src_d and ap[2]:
+                return ap[2]
+            return None
+        k = 0
+        for ini in f.j.get('inits', []):
+            if 'm' not in ini or not ini.get('written') or ini.get('e') is None:
+                continue
+            sp = src_path(ini['e'])
+            if sp is None:
+                continue
+            k += 1
+            ok = sp == (ini['m'],)
+            ck.ob('K.memberwise-copy', '%s|%s' % (f.cls, ini['m']), '%s:%s' % (f.rel(), ini.get('l', f.line)), ok, '' if ok else
+                  'member `%s` is initialised from `%s` of the source object' % (ini['m'], '.'.join(sp)))
+        for n in f.nodes.values():
+            if n['k'] in ('bin', 'opcall') and n.get('op') == '=' and n.get('x') is not None and n.get('y') is not None:
+                lp = ir.access_path(n['x'])
+                sp = src_path(n['y'])
+                if lp is None or sp is None or lp[0] != 'this':
+                    continue
+                k += 1
+                ok = tuple(lp[2]) == tuple(sp)
+                ck.ob('K.memberwise-copy', '%s|%s' % (f.cls, '.'.join(lp[2])), f.where(n), ok, '' if ok else
+                      '`%s` at %s copies member `%s` of the source into member `%s`' % (show(n)[:60], f.where(n), '.'.join(sp), '.'.join(lp[2])))
+
+
 def main(tier):
     ck = Check('C11', tier, 'C11 (clauses): collective scalars are rank-consistent, ghost values are used after the exchange completed, requests are completed.')
     T = os.path.join(ir.VERIF, 'tus')
@@ -1030,6 +1090,7 @@ def main(tier):
     rule_H(ck, units)
     rule_I(ck, units)
     rule_J(ck, units)
+    rule_K(ck, T)
     import c06
     c06.rule_chebyshev_bounds(ck, units, which=('sib',))    # the distributed spectral-radius estimate scales like the serial one (shared with C06 / C08)
     import c12
